@@ -6998,7 +6998,9 @@ impl<T: Deserialize + Packed> Deserialize for Vec<T> {
                 Err(SavefileError::MemoryAllocationLayoutError)
             }?;
             let ptr = if elem_size == 0 {
-                NonNull::dangling().as_ptr()
+                // Must be aligned for T (not just for u8): Vec::from_raw_parts requires an aligned
+                // pointer even for zero-sized element types.
+                NonNull::<T>::dangling().as_ptr() as *mut u8
             } else {
                 let ptr = unsafe { std::alloc::alloc(layout) };
                 if ptr.is_null() {
